@@ -48,6 +48,69 @@ func init() {
 		return f["for-multi"] > 0 || f["if-elseif-later"] > 0 || f["for-if-rejected"] > 0 || f["for-else"] > 0
 	})
 	p.Run = func(c *Ctx) {
+		// complete grid: length 0..8 x container kind x {plain, if, else, if+else}
+		meta := func() []*m.N {
+			var out []*m.N
+			for _, f := range []string{"index", "index0", "revindex", "revindex0", "length", "first", "last"} {
+				out = append(out, m.NPrint(m.ECall("cat", m.EAttr(m.EName("loop"), f))))
+			}
+			return out
+		}
+		idx := 0
+		done := true
+		for n := 0; n <= 8; n++ {
+			vals := m.Val{K: m.KArr}
+			lit := m.EArr()
+			for i := 0; i < n; i++ {
+				vals.A = append(vals.A, m.Num(float64(i*3%7)))
+				lit.A = append(lit.A, m.ENum(float64(i*3%7)))
+			}
+			conts := map[string]*m.E{"literal": lit, "ctx-values": m.EName("arr"), "ctx-slice": m.EName("sl"), "ctx-int8": m.EName("s8")}
+			if n >= 1 {
+				conts["range"] = m.EBin("..", m.ENum(2), m.ENum(float64(n+1)))
+			} else {
+				conts["null"] = m.ENull()
+			}
+			if n <= 1 {
+				h := &m.E{K: "hash"}
+				if n == 1 {
+					h.KS, h.A = []*m.E{m.EStr("k")}, []*m.E{m.ENum(5)}
+				}
+				conts["hash"] = h
+			}
+			ctx := []*m.CtxVar{{Name: "arr", V: vals}, {Name: "sl", V: vals, Carrier: "slice"}, {Name: "s8", V: vals, Carrier: "slice"}}
+			for _, name := range []string{"literal", "ctx-values", "ctx-slice", "ctx-int8", "range", "null", "hash"} {
+				x, ok := conts[name]
+				if !ok {
+					continue
+				}
+				for variant := 0; variant < 4; variant++ {
+					f := &m.N{K: "for", T: "k", S: "v", X: x}
+					f.Body = []*m.N{m.NText("<"), m.NPrint(m.ECall("cat", m.EName("k"), m.EName("v")))}
+					if variant&1 == 0 {
+						f.Body = append(f.Body, meta()...)
+					} else {
+						f.Y = m.EBin("!=", m.EBin("%", m.EName("v"), m.ENum(2)), m.ENum(0))
+						if name == "hash" {
+							f.Y = m.EBin(">", m.EName("v"), m.ENum(9))
+						}
+					}
+					f.Body = append(f.Body, m.NText(">"))
+					if variant&2 != 0 {
+						f.HasElse, f.Else = true, []*m.N{m.NText("EMPTY")}
+					}
+					idx++
+					if !c.Mine(idx) {
+						continue
+					}
+					prog := &m.Program{Env: "core", Loader: "memory", Entry: "main", Ctx: ctx, Tpls: []*m.Tpl{{Name: "main", Body: []*m.N{m.NText("["), f, m.NText("]")}}}}
+					if !sub.Check(c, &progCase{P: prog}) {
+						done = false
+					}
+				}
+			}
+		}
+		c.Ev.S.Exhaustive["length_x_container_x_form_grid"] = done
 		cfg := gen.Cfg{ExprDepth: 2, BodyLen: 3, Nest: 4, Calls: true, Carriers: true, If: true, For: true, LoopMeta: true, ForIf: true, NonIterable: true, Collide: true}
 		sub.Rapid(c, c.Share(c.Pick(25000, 1000000)), progGen(cfg))
 	}
